@@ -376,3 +376,70 @@ def run_store_case(kind, allow, ep):
     finally:
         F.os, F.io = saved
     return accepted == (allow or new_type_ext)
+
+
+# ---------------------------------------------------------------- registered toplevel-property extensions are not custom content, however they arrive
+def toplevel_extension_routes(ci: int, step: int, extra: bool) -> bool:
+    """
+    pre: 0 <= ci < 6 and 0 <= step < 9
+    post: _
+    """
+    ci, step, extra = pick(ci, 6), pick(step, 9), pickb(extra)
+    with Native():
+        ok = run_toplevel_route(ci, step, extra)
+    V.reached()
+    return ok
+
+
+def run_toplevel_route(ci, step, extra):
+    """an object carrying registered extensions (given as dictionaries, as ready-made instances, or re-used from a finished object by the
+    multi-step operations that rebuild it) is custom exactly when it also carries a genuinely custom property: flag, strict acceptance
+    and strict re-parse of the serialization agree"""
+    import copy as _copy
+    from props import h_C17
+    h_C17._register_fixture()
+    combo = h_C17.EXT_COMBOS[ci]
+    doc = h_C17.ext_doc(combo)
+    if extra:
+        doc["x_genuinely_custom"] = 1
+    strict = None
+    try:
+        strict = stix2.parse(doc, allow_custom=False, version="2.1")
+    except (STIXError, ValueError, TypeError):
+        pass
+    if (strict is not None) != (not extra):
+        return False
+    o = stix2.parse(doc, allow_custom=True, version="2.1")
+    M = "marking-definition--613f2e26-407d-48c7-9eca-b8e91df99dc9"
+    try:
+        if step == 0:
+            r = o
+        elif step == 1:
+            r = stix2.markings.add_markings(o, M)
+        elif step == 2:
+            r = _copy.deepcopy(o)
+        elif step == 3:
+            r = o.new_version(name="other", allow_custom=True)
+        elif step == 4:
+            r = stix2.parse(o, allow_custom=True)
+        elif step == 5:
+            r = stix2.v21.Bundle(o, allow_custom=True).objects[0]
+        elif step == 6:
+            kw = {k: v for k, v in o.items()}                       # the finished object's own values (extension instances) into a constructor
+            r = stix2.v21.Identity(allow_custom=True, **kw)
+        elif step == 7:
+            kw = {k: v for k, v in o.items()}
+            if extra:
+                return True
+            r = stix2.v21.Identity(**kw)                            # ... also in strict mode
+        else:
+            r = stix2.markings.add_markings(stix2.markings.add_markings(o, M, ["name"]), M)
+    except (STIXError, ValueError, TypeError):
+        return False
+    text = r.serialize()
+    try:
+        stix2.parse(json.loads(text), allow_custom=False, version="2.1")
+        again = True
+    except (STIXError, ValueError, TypeError):
+        again = False
+    return r.has_custom == extra and again == (not extra) and ("rank_a" in r) == (h_C17.EXT_A in combo)
